@@ -12,6 +12,7 @@ import "regexp/syntax"
 //
 // NOT supported:
 //   - char_class* patterns (zero-width matches not handled by CharClassSearcher)
+//   - lazy char_class+? patterns (the searcher is greedy)
 //   - Patterns with anchors (^, $)
 //   - Patterns with alternation outside char class
 //   - Patterns with concatenation (abc[\w]+)
@@ -25,6 +26,12 @@ func ExtractCharClassRanges(re *syntax.Regexp) [][2]byte {
 	// OpStar requires zero-width match support which CharClassSearcher doesn't handle.
 	// For [0-9]* on "A", the result should be true (zero-width match at position 0).
 	if re.Op != syntax.OpPlus {
+		return nil
+	}
+
+	// CharClassSearcher consumes the whole run (greedy). A lazy x+? matches one
+	// character at a time under leftmost-first semantics.
+	if re.Flags&syntax.NonGreedy != 0 {
 		return nil
 	}
 
